@@ -230,7 +230,7 @@ func c04Classify(c *fw.Ctx, id string, ec excClass, pos string, kind string, see
 // ---- fault scripts ----
 
 var c04FaultKinds = []string{"move", "split", "merge", "offline", "opening", "too-busy", "call-queue", "throttle", "abort-exc", "reset",
-	"server-down", "meta-move", "app-exception", "unknown-table", "split-meta-lag", "meta-row-missing", "crash-reassign"}
+	"server-down", "meta-move", "app-exception", "unknown-table", "split-meta-lag", "meta-row-missing", "crash-reassign", "drop-table", "kill-after-probe"}
 
 type c04Script struct {
 	Seed   int64
@@ -246,7 +246,8 @@ func runC04Script(c *fw.Ctx, id string, sc c04Script) {
 	r := rand.New(rand.NewSource(sc.Seed))
 	cl := sim.NewCluster(sc.Seed, 3)
 	defer cl.Close()
-	cl.CreateTable("t", [][]byte{[]byte("g"), []byte("p")}, nil)
+	// six regions over three servers: every connection is shared by two regions
+	cl.CreateTable("t", [][]byte{[]byte("d"), []byte("g"), []byte("k"), []byte("p"), []byte("t")}, nil)
 	cl.EchoResults = true
 	client := c04Client(cl, sc.Queue)
 	defer func() { within(3*time.Second, client.Close) }()
@@ -267,9 +268,18 @@ func runC04Script(c *fw.Ctx, id string, sc c04Script) {
 		return nil
 	}
 	var abortConn sync.Map
+	var killAfterProbe sync.Map // server address -> armed
+	closedCh := make(chan struct{})
+	close(closedCh)
 	cl.OnRequest = func(req *sim.Request) *sim.Reply {
 		if _, ok := abortConn.Load(req.Conn.ID); ok {
 			return &sim.Reply{Exc: &sim.Exc{Class: sim.ExcAborted, KillConn: true}}
+		}
+		if req.Single != nil && req.Single.Kind() == "exists" && req.Single.OpID == "" && string(req.Single.Region) != string(sim.MetaRegionName) {
+			if _, armed := killAfterProbe.LoadAndDelete(req.Server); armed {
+				// the region probe is answered, then the connection dies
+				return &sim.Reply{HoldDefault: closedCh, KillConn: true}
+			}
 		}
 		return nil
 	}
@@ -280,11 +290,12 @@ func runC04Script(c *fw.Ctx, id string, sc c04Script) {
 		err               error
 		res               *hrpc.Result
 		wantApp           bool
+		wantTNF           bool // the table does not exist (any more) when the request is issued
 		returned          bool
 	}
 	var outs []*outcome
 	var wg sync.WaitGroup
-	keys := []string{"a1", "f9", "g", "g0", "k5", "oz", "p", "p1", "zz"}
+	keys := []string{"a1", "d", "f9", "g", "g0", "k5", "oz", "p", "p1", "t0", "zz"}
 	issue := func(kind string, key string, table string, app bool) {
 		opn++
 		o := &outcome{opid: fmt.Sprintf("%s%s-%d", sim.OpIDPrefix, id, opn), kind: kind, table: table, row: []byte(key), wantApp: app}
@@ -326,6 +337,7 @@ func runC04Script(c *fw.Ctx, id string, sc c04Script) {
 			issue([]string{"get", "put", "append", "batch"}[r.Intn(4)], keys[r.Intn(len(keys))], "t", false)
 		}
 	}
+	created2, dropped2 := false, false
 	downForGood := map[string]bool{}
 	// rehome: whatever sits on a dead server goes to a server that is alive now
 	rehome := func(pick int) {
@@ -457,12 +469,55 @@ func runC04Script(c *fw.Ctx, id string, sc c04Script) {
 				pick := r.Intn(1 << 20)
 				time.AfterFunc(time.Duration(30+r.Intn(120))*time.Millisecond, func() { rehome(pick) })
 			}
+		case "kill-after-probe":
+			// a region is being re-established on a connection shared with other
+			// regions; its probe is answered and then the connection dies while
+			// requests for the sibling regions are in flight
+			name, srv := reg.Name, reg.Server
+			cl.SetOffline(name, true)
+			issue("get", string(append(append([]byte{}, reg.Start...), '1')), "t", false)
+			time.AfterFunc(time.Duration(10+r.Intn(20))*time.Millisecond, func() {
+				killAfterProbe.Store(srv, true)
+				cl.SetOffline(name, false)
+			})
+			var sib []string // keys of the other regions on that server
+			for _, rg := range regsNow {
+				if rg.Server == srv && string(rg.Name) != string(name) {
+					sib = append(sib, string(append(append([]byte{}, rg.Start...), '2')))
+				}
+			}
+			for i := 0; i < 16; i++ {
+				if len(sib) > 0 {
+					issue([]string{"get", "put"}[i%2], sib[i%len(sib)], "t", false)
+				} else {
+					someRequests(1)
+				}
+				time.Sleep(2 * time.Millisecond)
+			}
 		case "meta-move":
 			cl.SetMeta(other)
 		case "app-exception":
 			issue("put", keys[r.Intn(len(keys))], "t", true)
 		case "unknown-table":
 			issue("get", "k", "nosuchtable", false)
+			outs[len(outs)-1].wantTNF = true
+		case "drop-table":
+			// a second table whose region is cached is dropped: requests for it must
+			// end with "table not found" instead of being retried for ever
+			if !dropped2 {
+				if !created2 {
+					cl.CreateTable("t2", [][]byte{[]byte("m")}, func(i int) string { return live[i%len(live)] })
+					created2 = true
+					for _, k := range []string{"a", "x"} {
+						issue("get", k, "t2", false)
+					}
+					wg.Wait()
+				}
+				cl.DropTable("t2")
+				dropped2 = true
+			}
+			issue([]string{"get", "put", "batch"}[r.Intn(3)], []string{"a", "x"}[r.Intn(2)], "t2", false)
+			outs[len(outs)-1].wantTNF = true
 		}
 		someRequests(1 + r.Intn(3))
 		if r.Intn(2) == 0 {
@@ -495,9 +550,13 @@ func runC04Script(c *fw.Ctx, id string, sc c04Script) {
 	for _, o := range outs {
 		c.Count("script_requests_checked", 1)
 		switch {
-		case o.table != "t":
+		case o.wantTNF:
 			if o.err == nil || !strings.Contains(o.err.Error(), "table not found") {
-				c.Violate(id, "faults:unknown-table-not-reported", fmt.Sprintf("request for a table that does not exist ended with %v: %s", o.err, sc), sc)
+				c.Violate(id, "faults:unknown-table-not-reported", fmt.Sprintf("request for table %q, which does not exist (any more), ended with %v: %s", o.table, o.err, sc), sc)
+			}
+		case o.table != "t":
+			if o.err != nil {
+				c.Violate(id, "faults:retryable-error-surfaced", fmt.Sprintf("%s %s on table %q failed with %v: %s", o.kind, o.opid, o.table, o.err, sc), sc)
 			}
 		case o.wantApp:
 			if o.err == nil || !strings.Contains(o.err.Error(), "app-error-for-"+o.opid) {
